@@ -258,6 +258,17 @@ func containersFromMake(p *Prog, r *Report, id string, requireAlloc bool) {
 					list = ast.Unparen(def)
 				}
 			}
+			// the list may be produced by a private helper whose single statement returns it
+			// (its parameters carry the canonical role names, so the shapes below read the same)
+			linfo := info
+			back := func(s string) string { return s } // text of a helper expression → text in terms of the caller's arguments
+			if _, isCall := list.(*ast.CallExpr); isCall {
+				if hret, h, subst := p.helperReturn(info, list); hret != nil {
+					list = ast.Unparen(hret)
+					linfo = h.Pkg.TypesInfo
+					back = func(s string) string { return substText(h, subst, s) }
+				}
+			}
 			// the site is named after the innermost condition that holds at the return, in a
 			// normal form that does not depend on whether the code says `if c {A}; B` or `if !c {B}; A`
 			disc := "other"
@@ -287,12 +298,12 @@ func containersFromMake(p *Prog, r *Report, id string, requireAlloc bool) {
 			}
 			okAlloc := false
 			for _, e := range cl.Elts {
-				g := p.nilGuard(info, e)
-				if g == nil || !strings.HasPrefix(g.Cond, "sourceID") || len(g.BlockArgs) < 2 {
+				g := p.nilGuard(linfo, e)
+				if g == nil || !strings.HasPrefix(back(g.Cond), "sourceID") || len(g.BlockArgs) < 2 {
 					continue
 				}
 				first, ok := chainOf(g.Info, g.BlockArgs[0])
-				if !ok || first.Root == nil || !strings.HasPrefix(exprString(first.Root), "assignTo") {
+				if !ok || first.Root == nil || !strings.HasPrefix(back(exprString(first.Root)), "assignTo") {
 					continue
 				}
 				mk := first.Has("Make")
@@ -304,10 +315,10 @@ func containersFromMake(p *Prog, r *Report, id string, requireAlloc bool) {
 					continue
 				}
 				ln, ok := chainOf(g.Info, mk.Args[1])
-				if !ok || ln.Links[0].Name != "Len" || !strings.HasPrefix(exprString(ln.Links[0].Args[0]), "sourceID") {
+				if !ok || ln.Links[0].Name != "Len" || !strings.HasPrefix(back(exprString(ln.Links[0].Args[0])), "sourceID") {
 					continue
 				}
-				if !strings.HasPrefix(exprString(mk.Args[0]), "target.TypeAsJen") {
+				if !strings.HasPrefix(back(exprString(mk.Args[0])), "target.TypeAsJen") {
 					continue
 				}
 				okAlloc = true
@@ -319,7 +330,7 @@ func containersFromMake(p *Prog, r *Report, id string, requireAlloc bool) {
 				assigns := false
 				ast.Inspect(cl, func(m ast.Node) bool {
 					if call, ok := m.(*ast.CallExpr); ok {
-						if ch, ok := chainOf(info, call); ok && ch.Root != nil && strings.HasPrefix(exprString(ch.Root), "assignTo") && ch.Has("Op") != nil && ch.Has("Make") == nil {
+						if ch, ok := chainOf(linfo, call); ok && ch.Root != nil && strings.HasPrefix(back(exprString(ch.Root)), "assignTo") && ch.Has("Op") != nil && ch.Has("Make") == nil {
 							assigns = true
 						}
 					}
